@@ -36,7 +36,7 @@ pub fn run(cfg: &Config) -> i32 {
 
 	if cfg.san {
 		add(&mut total, pf::fam_sigma(cfg, flags, "sigma-c-strings", &gen::SIGMA_C, 3));
-		add(&mut total, pf::fam_generated(cfg, flags, cfg.budget(0, 0).max(200), true));
+		add(&mut total, pf::fam_generated(cfg, flags, cfg.budget(300_000, 10_000_000), true));
 	} else {
 		add(&mut total, pf::fam_sigma(cfg, flags, "sigma-c-strings", &gen::SIGMA_C, if thorough { 6 } else { 5 }));
 		add(&mut total, pf::fam_sigma(cfg, flags, "sigma-t-token-sequences", &gen::SIGMA_T, if thorough { 7 } else { 5 }));
